@@ -64,6 +64,9 @@ pub struct PFault {
     /// (applied by the caller that owns the circuit; C08)
     #[serde(default)]
     pub shift_lookup_rows: Option<usize>,
+    /// (input index, value): the honest prover run on another input assignment (applied by the caller)
+    #[serde(default)]
+    pub input: Option<(usize, u64)>,
 }
 
 impl PFault {
@@ -77,6 +80,9 @@ impl PFault {
         }
         if self.shift_lookup_rows.is_some() {
             k.push("shift_lookup_rows");
+        }
+        if self.input.is_some() {
+            k.push("input");
         }
         if self.knobs.z_init.is_some() {
             k.push("H1.z_init");
@@ -407,6 +413,28 @@ fn exec_c<C: GenericConfig<D, F = F>>(case: &Case, rep: &mut Report) {
             }
             plan.push(PFault { cell: Some((tidx(lw.first_lut_gate, LookupTableGate::wire_ith_looked_out(0)), "plus1".into(), 0)), ..Default::default() });
         }
+        // another input assignment through the honest API: inputs at the powers of two where range assertions flip
+        if !case.st.prog.ops.iter().any(|o| matches!(o, Op::MerkleVerify(..))) {
+            let fin: Vec<usize> = (0..case.st.prog.inputs.len()).filter(|i| matches!(case.st.prog.inputs[*i], Val::F(_))).collect();
+            // a looked-up input moved to an input that only another table holds
+            for op in &case.st.prog.ops {
+                if let Op::Lookup(t, x) = op {
+                    if *x < case.st.prog.inputs.len() {
+                        let mine = &case.st.prog.tables[*t];
+                        let foreign: Vec<u64> = case.st.prog.tables.iter().enumerate().filter(|(k, _)| k != t).flat_map(|(_, tb)| tb.iter().map(|(a, _)| *a as u64)).filter(|a| !mine.iter().any(|(m, _)| *m as u64 == *a)).collect();
+                        for v in foreign.iter().take(3) {
+                            plan.push(PFault { input: Some((*x, *v)), ..Default::default() });
+                        }
+                    }
+                }
+            }
+            for &i in fin.iter().take(2) {
+                for _ in 0..4 {
+                    let v = *r.pick(&[2u64, 16, 17, 256, 300, 1 << 16, 1 << 32, 1 << 48, (1 << 63) + 5]);
+                    plan.push(PFault { input: Some((i, v)), ..Default::default() });
+                }
+            }
+        }
         // write events
         if reorder_ok && events > 0 {
             let evs: Vec<usize> = if case.all_events && n <= 64 { (0..events).collect() } else { (0..6).map(|_| r.usize(events)).collect() };
@@ -434,6 +462,38 @@ fn exec_c<C: GenericConfig<D, F = F>>(case: &Case, rep: &mut Report) {
     }
 
     for f in &plan {
+        if let Some((i, nv)) = f.input {
+            // the reference evaluator decides whether the new assignment satisfies the program
+            if i >= case.st.prog.inputs.len() || case.st.prog.inputs[i] == Val::F(nv) {
+                continue;
+            }
+            let mut st2 = case.st.clone();
+            st2.prog.inputs[i] = Val::F(nv);
+            let reference = st2.prog.expected_public(&st2.prog.inputs);
+            let v = match run_fault(&built, &ctx, &st2, &case.sched, &case.entropy, &PFault::default()) {
+                Some(v) => v,
+                None => continue,
+            };
+            rep.fault("input");
+            const UNSAT: [&str; 7] = ["range_check fails", "split_le: value too wide", "low_bits: value too wide", "split_low_high: value too wide", "split_le_base: value too wide", "exp: exponent too wide", "lookup: input not in table"];
+            match &reference {
+                Err(EvalError::Precondition(m)) if UNSAT.contains(&m.as_str()) => {
+                    rep.case(base_sig ^ hash_value(&serde_json::to_value(f).unwrap()), true);
+                    rep.probe("c02.input_assignment_the_reference_rejects");
+                    if v.accepted {
+                        viol(rep, case, f, "accepted_proof_for_inputs_the_reference_rejects", "oracle_b", format!("input {i} := {nv}: the reference evaluator says '{m}', the statement checker says {:?}", v.sat));
+                    }
+                }
+                Ok(exp) => {
+                    rep.case(base_sig ^ hash_value(&serde_json::to_value(f).unwrap()), false);
+                    if v.accepted && &v.pis != exp {
+                        viol(rep, case, f, "accepted_public_inputs_differ_from_reference", "oracle_b", format!("input {i} := {nv}"));
+                    }
+                }
+                _ => rep.case(base_sig ^ hash_value(&serde_json::to_value(f).unwrap()), false),
+            }
+            continue;
+        }
         let v = match run_fault(&built, &ctx, &case.st, &case.sched, &case.entropy, f) {
             Some(v) => v,
             None => continue,
